@@ -1133,7 +1133,9 @@ header_Solaris_ACL(struct archive_read *a, struct tar *tar,
 	    tar->localname.s, acl_type, tar->sconv_acl);
 	/* Workaround: Force perm_is_set() to be correct */
 	/* If this bit were stored in the ACL, this wouldn't be needed */
-	archive_entry_set_perm(entry, archive_entry_perm(entry));
+	/* Only an access ACL carries the permission bits. */
+	if (acl_type == ARCHIVE_ENTRY_ACL_TYPE_ACCESS)
+		archive_entry_set_perm(entry, archive_entry_perm(entry));
 	if (err != ARCHIVE_OK) {
 		if (errno == ENOMEM) {
 			archive_set_error(&a->archive, ENOMEM,
@@ -1327,6 +1329,13 @@ header_common(struct archive_read *a, struct tar *tar,
 	if (!archive_entry_perm_is_set(entry)) {
 		archive_entry_set_perm(entry,
 			(mode_t)tar_atol(header->mode, sizeof(header->mode)));
+	} else {
+		/* The rwx bits came from an access ACL, which has no way to
+		 * express set-uid, set-gid and sticky: those are in the header. */
+		archive_entry_set_perm(entry,
+		    (archive_entry_perm(entry) & 0777) |
+		    ((mode_t)tar_atol(header->mode, sizeof(header->mode))
+		    & 07000));
 	}
 
 	/* Set uid, gid, mtime if not already set */
@@ -2205,7 +2214,9 @@ pax_attribute_SCHILY_acl(struct archive_read *a, struct tar *tar,
 	__archive_read_consume(a, value_length);
 	/* Workaround: Force perm_is_set() to be correct */
 	/* If this bit were stored in the ACL, this wouldn't be needed */
-	archive_entry_set_perm(entry, archive_entry_perm(entry));
+	/* Only an access ACL carries the permission bits. */
+	if (type == ARCHIVE_ENTRY_ACL_TYPE_ACCESS)
+		archive_entry_set_perm(entry, archive_entry_perm(entry));
 	if (r != ARCHIVE_OK) {
 		if (r == ARCHIVE_FATAL) {
 			archive_set_error(&a->archive, ENOMEM,
